@@ -20,7 +20,7 @@ dest=$(destof "$demo")
 [ "$dest" = MAIN ] && { echo "demo is a main program: verify by hand ($demo)"; exit 3; }
 [ -d "$dest" ] || { echo "cannot map package of $demo"; exit 3; }
 tname() { local n; n=$(basename "$1" .txt); case "$n" in *_test.go) ;; *) n="${n%.go}_test.go";; esac; echo "zz_seed_$n"; }
-tag=$(grep -m1 '^//go:build ' "$demo" | awk '{print $2}')
+tag=$(grep -m1 '^//go:build ' "$demo" | tr ' &|()!' '\n' | grep -v -x -e '//go:build' -e linux -e unix -e '' | head -1)
 TAGS=""; [ -n "$tag" ] && TAGS="-tags $tag"
 dests=""; for d in $demos; do dd=$(destof "$d"); case " $dests " in *" ./$dd/ "*) ;; *) dests="$dests ./$dd/";; esac; done
 run() { timeout 300 $GO test $TAGS -vet=off -count=1 $dests 2>&1 | tail -15; return ${PIPESTATUS[0]}; }
